@@ -164,7 +164,7 @@ def run_case(case):
                 r, secs, mo = ctx.prove_from_pc(claim, cap)
                 rec = {'name': 'path%d tgt%d: anchor %d is the nearest atom with two bonds' % (pidx, k, a), 'status': r, 'secs': secs}
                 if r == 'sat':
-                    rec['witness'] = wit(ctx, [z3.Not(claim)], mo, 'nearest')
+                    rec['witness'] = wit(ctx, [z3.Not(claim), s != 1], mo, 'nearest')
                 records.append(rec)
             # frame lemmas for this anchor on this path (rows on the real expressions, columns via abstraction)
             frame, origin = m._refsystems[a]
@@ -224,6 +224,10 @@ def replay(w):
         if not np.any(np.cross(R[nb[1]] - R[a], R[nb[0]] - R[a])):
             collinear = True
         want = R[a] + s * (T[k] - R[a])
+        rec_anchor = [anc for anc, tl in m.equivalences.items() if k in tl]
+        if sorted(d)[0] < sorted(d + [np.inf])[1] - 1e-9 and rec_anchor != [a]:
+            bad.append('target atom %d assigned to anchor %s although atom %d is the closest atom with two bonds (distances %s)' % (
+                k, rec_anchor, a, [round(x, 6) for x in d]))
         if not np.all(np.isfinite(out[k])):
             bad.append('target atom %d mapped to non-finite coordinates' % k)
         elif sorted(d)[0] < sorted(d + [np.inf])[1] - 1e-9 and np.abs(out[k] - want).max() > 1e-9:
